@@ -254,10 +254,9 @@ class HistGen:
             return dict(op=op, expect="ok", kind="derive-unit", new_sym=sym)
         return None
 
-    def term_unit(self, only_cls=None, force_kind=None):
+    def term_unit(self, only_cls=None, force_kind=None, offgrid=None):
         w, rng = self.w, self.rng
-        cands = [n for n, c in w.classes.items() if "items" in c
-                 or (c["ref"] is not None and c["quantum"] is None)]
+        cands = [n for n, c in w.classes.items() if "items" in c or c["ref"] is not None]
         rng.shuffle(cands)
         if only_cls is not None:
             cands = [only_cls]
@@ -270,6 +269,13 @@ class HistGen:
             num = rng.choice(FACTORS + [None, None])
             if force_kind == "i":
                 num = Fraction(rng.choice([2, 3, 7, 12, 60, 1000, 1024]))
+            if w.classes[cls]["quantum"] is not None and force_kind is None:
+                # a unit of a quantised type that is smaller than the quantum or
+                # lies between two multiples of it (only a term can define one:
+                # a defining quantity would itself be rounded)
+                u0 = items[0][0]
+                num = w.classes[cls]["quantum"] * (offgrid or rng.choice(
+                    [Fraction(1, 10), Fraction(1, 4), Fraction(3, 2), Fraction(5, 2)])) / w.units[u0]["scale"]
             if force_kind != "i" and rng.random() < self.split_items:
                 # name two different units of one base type: u^e -> u^e1 * u2^e2
                 split = []
@@ -284,7 +290,8 @@ class HistGen:
                 items = split
             # the numeric item may carry an exponent of its own (10^6, 2^10, 8^-1)
             nexp = 1
-            if num is not None and force_kind is None and rng.random() < .3:
+            if num is not None and force_kind is None and w.classes[cls]["quantum"] is None \
+                    and rng.random() < .3:
                 num = Fraction(rng.choice([2, 10, 8, 3, 60]))
                 nexp = rng.choice([-3, -2, -1, 2, 3, 6, 10])
             scale = num ** nexp if num is not None else Fraction(1)
